@@ -181,6 +181,37 @@ def run_grid(ctx, nix, spec, base, base_snap):
                             ctx.violation("created_file_header_wrong:%s" % mode, rep, rep)
                     except Exception as e:
                         ctx.violation("created_file_unreadable:%s" % mode, dict(rep, error=repr(e)[:200]), rep)
+    # an existing path that is not an HDF5 file at all, or a damaged one: never "missing", never to be replaced by r / a
+    if spec["i"] == 1:
+        with open(base, "rb") as fh:
+            whole = fh.read()
+        # (a zero-byte file is not among them: it holds nothing that could be lost, and the HDF5 library itself writes a
+        # superblock into it when it is opened for writing - observed, not judged)
+        variants = {"text_file": b"this is a lab notebook, not an HDF5 file\n" * 40,
+                    "truncated_hdf5": whole[:max(600, len(whole) // 3)], "hdf5_with_damaged_superblock": b"\x00" * 16 + whole[16:]}
+        for vname, content in variants.items():
+            for mode in ("r", "a"):
+                p = env.scratch_file("c11_%s_%s.nix" % (vname, mode))
+                with open(p, "wb") as fh:
+                    fh.write(content)
+                before = sha(p)
+                rep = {"part": "not_an_hdf5_file", "variant": vname, "mode": mode}
+                ctx.case(("not_hdf5", vname, mode))
+                ctx.count("not_hdf5_points")
+                try:
+                    f = nix.File.open(p, mode)
+                    f.close()
+                    ctx.violation("unreadable_file_opened:%s:%s" % (vname, mode), rep, rep)
+                except Exception:
+                    pass
+                gc.collect()
+                if not os.path.exists(p) or sha(p) != before:
+                    ctx.violation("unreadable_file_replaced_or_changed:%s:%s" % (vname, mode), dict(rep, size_before=len(content),
+                                  size_after=os.path.getsize(p) if os.path.exists(p) else None), rep)
+                try:
+                    os.remove(p)
+                except OSError:
+                    pass
     ctx.count("exhaustive_grid_complete")
 
 
